@@ -2718,9 +2718,10 @@ pub fn std() -> impl Function {
             ((sum_2 - sum * sum / count) / (count - 1.)).sqrt().into()
         },
         |(intervals, _size)| match (intervals.min(), intervals.max()) {
+            // rounded outwards: the statistic itself is computed in floating point
             (Some(&min), Some(&max)) => Ok(data_type::Float::from_interval(
                 0.,
-                (max - min) / std::f64::consts::SQRT_2,
+                (max - min) / std::f64::consts::SQRT_2 * (1. + 8. * f64::EPSILON),
             )),
             _ => Ok(data_type::Float::from_min(0.)),
         },
@@ -2747,9 +2748,10 @@ pub fn std_distinct() -> impl Function {
             ((sum_2 - sum * sum / count) / (count - 1.)).sqrt().into()
         },
         |(intervals, _size)| match (intervals.min(), intervals.max()) {
+            // rounded outwards: the statistic itself is computed in floating point
             (Some(&min), Some(&max)) => Ok(data_type::Float::from_interval(
                 0.,
-                (max - min) / std::f64::consts::SQRT_2,
+                (max - min) / std::f64::consts::SQRT_2 * (1. + 8. * f64::EPSILON),
             )),
             _ => Ok(data_type::Float::from_min(0.)),
         },
@@ -2778,7 +2780,8 @@ pub fn var() -> impl Function {
         |(intervals, _size)| match (intervals.min(), intervals.max()) {
             (Some(&min), Some(&max)) => Ok(data_type::Float::from_interval(
                 0.,
-                (max - min).powi(2) / 2.,
+                // rounded outwards: the statistic itself is computed in floating point
+                (max - min).powi(2) / 2. * (1. + 8. * f64::EPSILON),
             )),
             _ => Ok(data_type::Float::from_min(0.)),
         },
@@ -2807,7 +2810,8 @@ pub fn var_distinct() -> impl Function {
         |(intervals, _size)| match (intervals.min(), intervals.max()) {
             (Some(&min), Some(&max)) => Ok(data_type::Float::from_interval(
                 0.,
-                (max - min).powi(2) / 2.,
+                // rounded outwards: the statistic itself is computed in floating point
+                (max - min).powi(2) / 2. * (1. + 8. * f64::EPSILON),
             )),
             _ => Ok(data_type::Float::from_min(0.)),
         },
